@@ -206,7 +206,7 @@ def report_codes(ck, pid, what, bad, cases, runs, prop_codes, extra=None):
                       f"but no history violating {pid} was found in the explored families", d, no_input=True)
 
 
-def main_S(pid, tier, seed, prop_codes, prop_mod, serving_files, what, emphasis):
+def main_S(pid, tier, seed, prop_codes, prop_mod, serving_files, what, emphasis, extra=None):
     ck = Check(pid, tier, seed, prop_mod, serving_files)
     ck.build_and_audit()
     rng = random.Random(seed)
@@ -234,6 +234,8 @@ def main_S(pid, tier, seed, prop_codes, prop_mod, serving_files, what, emphasis)
                        ticks_total=sum(len(r["ticklog"]) for r in runs))
     ck.sample(dict(case=describe(cases[-1]), ticklog=runs[-1]["ticklog"][:6]))
     report_codes(ck, pid, what, bad, cases, runs, prop_codes | {99})
+    if extra is not None:
+        extra(ck, tier, rng)
     return ck.finish()
 
 
